@@ -696,7 +696,7 @@ package codec
 //@   ensures result != nil && result == codecManager
 
 //@ func (*CodecManager).GetCodec
-//@   prop C12
+//@   prop C12 C13
 //@   requires c != nil
 //@   ensures found: c.codecMap[codecType] != nil ==> result == c.codecMap[codecType][msgType]
 //@   ensures none: c.codecMap[codecType] == nil ==> result == nil
@@ -713,7 +713,7 @@ package codec
 //@   ensures result == ufi("codec.msgtype", self)
 
 //@ func (*CodecManager).Encode
-//@   prop C12
+//@   prop C12 C13
 //@   requires c != nil && in != nil && implements(in, message.MessageTypeAware)
 //@   let tc := ufi("typecode_of", in)
 //@   let inner := c.codecMap[codecType]
@@ -733,7 +733,7 @@ package codec
 //@   nopanic
 
 //@ func Init
-//@   prop C12
+//@   prop C12 C13
 //@   modifies heap.all
 //@   ensures registered-GlobalBeginRequest: isT(codecManager.codecMap[CodecTypeSeata][typecode(message.GlobalBeginRequest)], *GlobalBeginRequestCodec)
 //@   ensures registered-GlobalBeginResponse: isT(codecManager.codecMap[CodecTypeSeata][typecode(message.GlobalBeginResponse)], *GlobalBeginResponseCodec)
